@@ -499,7 +499,7 @@ def runOp (env : Env MemDict Lay) (e : Editor MemDict Lay) (fn : String) (a : Li
   | "setopts", toks => let (o, _) := optionsP.run toks; .ok (e.setOptions env o, "ok")
   | "setlayout", [_, code, empty, ks] =>
     let st : LayState := { code := natOf code, empty := empty == "1", keySeq := if ks == "-" then none else some ks }
-    .ok ({ e with shared := { e.shared with syl := { e.shared.syl with st := st, gen := e.shared.syl.gen + 1 } } }, "ok")
+    .ok (e.setLayout env { e.shared.syl with st := st, gen := e.shared.syl.gen + 1 }, "ok")
   | "setengine", [k] =>
     let k := engineOf (natOf k)
     let e := { e with shared := { e.shared with engine := k } }
